@@ -26,7 +26,7 @@ ASSUMPTIONS = [
     "asyncio's FIFO order of ready callbacks is kept (it is an asyncio guarantee)",
     "token containment identifies the producers a job consumed (tokens are unique per job by construction)",
 ]
-PROBES = ["bodies_overlapped", "job_seen_running", "futured_dedup", "nested_wf", "split_jobs", "dup_nested_wf", "pydrafilelock_waited"]
+PROBES = ["bodies_overlapped", "job_seen_running", "futured_dedup", "nested_wf", "split_jobs", "dup_nested_wf", "cross_level_dup", "pydrafilelock_waited"]
 NWF = {"quick": 60, "thorough": 900}
 NSCHED = {"quick": 5, "thorough": 12}
 
@@ -56,6 +56,9 @@ def run_case(case, ch, workdir):
     spec, sch = wc.spec_for(seed, case["w"])
     if case["w"] % 6 == 5:
         spec = wfgen.add_dup_nested(sch, spec)
+    if case["w"] % 6 == 4:
+        spec = wfgen.add_cross_level_dup(sch, spec)
+        res["probes"]["cross_level_dup"] = 1
     desc = wfgen.describe(spec)
     rstat, rval, revents = wc.reference_run(spec, os.path.join(workdir, "refcache"))
     renters, rorder, rprod = wc.exec_summary(revents)
@@ -107,7 +110,9 @@ def run_case(case, ch, workdir):
                 if k not in renters:
                     violation(res, "exec-count", sig, f"[cf worker] unexpected job {k[:120]} executed")
         res["faults"] = dict(sim.faults)
+        keep = dict(res["probes"])
         res["probes"] = dict(sim.probes)
+        res["probes"].update(keep)
     finally:
         env.close()
     return res
